@@ -7,12 +7,14 @@ import (
 	"os"
 	"path/filepath"
 	"strings"
+	"syscall"
 	"testing/fstest"
 )
 
 // sandbox is one scratch instance of theLayout on disk plus its pure model.
 type sandbox struct {
 	B       string            // real path of the scratch base
+	W       string            // last component of B ("$W": how B is spelled relative to its parent directory)
 	orig    string            // working directory before the run
 	m       *model            // full layout
 	mNL     *model            // layout without symbolic links (mirror of the MapFS)
@@ -46,12 +48,15 @@ func realBase(dir string) (string, error) {
 	return cur, nil
 }
 
-func newSandbox() (*sandbox, error) {
+func newSandbox() (*sandbox, error) { return newSandboxLayout("", theLayout) }
+
+// newSandboxLayout creates the layout table ents under a new directory of parent ("" = the default temp directory).
+func newSandboxLayout(parent string, ents []layoutEnt) (*sandbox, error) {
 	orig, err := os.Getwd()
 	if err != nil {
 		return nil, err
 	}
-	tmp, err := os.MkdirTemp("", "c20-")
+	tmp, err := os.MkdirTemp(parent, "c20-")
 	if err != nil {
 		return nil, err
 	}
@@ -64,10 +69,15 @@ func newSandbox() (*sandbox, error) {
 		os.RemoveAll(tmp)
 		return nil, fmt.Errorf("scratch path %q contains characters the driver does not quote", B)
 	}
-	sb := &sandbox{B: B, orig: orig, content: map[string]string{}, idOf: map[string]string{}, mapfs: fstest.MapFS{}}
-	for _, e := range theLayout {
+	sb := &sandbox{B: B, W: baseName(B), orig: orig, content: map[string]string{}, idOf: map[string]string{}, mapfs: fstest.MapFS{}}
+	for _, e := range ents {
 		p := B + "/" + e.Path
 		switch e.Kind {
+		case kFifo:
+			c := fileContent(e) // what the harness writes into the pipe once somebody opens it for reading
+			sb.content[e.Path] = c
+			sb.idOf[c] = fileID(e)
+			err = syscall.Mkfifo(p, 0o644)
 		case kDir:
 			err = os.Mkdir(p, 0o755)
 		case kFile:
@@ -92,8 +102,8 @@ func newSandbox() (*sandbox, error) {
 			}
 		}
 	}
-	sb.m = newModel(B, theLayout, false)
-	sb.mNL = newModel(B, theLayout, true)
+	sb.m = newModel(B, ents, false)
+	sb.mNL = newModel(B, ents, true)
 	sb.rootN = sb.m.base.children["root"]
 	sb.rootNL = sb.mNL.base.children["root"]
 	return sb, nil
@@ -104,8 +114,12 @@ func (sb *sandbox) close() {
 	_ = os.RemoveAll(sb.B)
 }
 
-func (sb *sandbox) expand(s string) string   { return strings.ReplaceAll(s, "$B", sb.B) }
-func (sb *sandbox) template(s string) string { return strings.ReplaceAll(s, sb.B, "$B") }
+func (sb *sandbox) expand(s string) string {
+	return strings.ReplaceAll(strings.ReplaceAll(s, "$B", sb.B), "$W", sb.W)
+}
+func (sb *sandbox) template(s string) string {
+	return strings.ReplaceAll(strings.ReplaceAll(s, sb.B, "$B"), sb.W, "$W")
+}
 
 // chdir moves the process into B/<rel> and returns the model node of it.
 func (sb *sandbox) chdir(rel string) (*node, error) {
